@@ -58,39 +58,8 @@ def _names(lst):
     return out
 
 
-def _gomod_replaces(case):
-    """the replace directives of a gomod case line (document token: requires|replaces|go|toolchain[|older|go.sum fields], hex fields)"""
-    t = case.split(' ')
-    if len(t) < 4 or t[0] != 'gomod':
-        return None
-    f = t[3].split('|')
-    if len(f) < 4:
-        return None
-    out = []
-    for e in ([] if f[1] in ('-', '') else f[1].split(',')):
-        q = e.split(':')
-        if len(q) != 4:
-            return None
-        try:
-            out.append(tuple(bytes.fromhex(x).decode('latin-1') for x in q))
-        except ValueError:
-            return None
-    return out
-
-
 def finding_class(case, fi, fm):
     """Known findings of C03. The class predicate is computed from the INPUT (never from the generator's label)."""
-    reps = _gomod_replaces(case)
-    if reps:
-        # C03/gomod-wildcard-replace-follows-replaced-name: the file holds a wildcard directive (no version on the left) whose left path is the
-        # RIGHT path of another directive that is not a wildcard for that same path — the only shape in which matching a wildcard against the
-        # entry's CURRENT name (what extractGoMod does) differs from matching it against the module as required (what the go command does)
-        for i, w in enumerate(reps):
-            if w[1] != '':
-                continue
-            for j, r in enumerate(reps):
-                if i != j and r[2] == w[0] and not (r[1] == '' and r[0] == w[0]):
-                    return 'C03/gomod-wildcard-replace-follows-replaced-name'
     t = case.split(' ')
     if t[0] == 'gemfile' and len(t) > 1 and len(t[1]) < 2 * 65536:
         try:
@@ -133,7 +102,7 @@ def run(ctx):
                        'go.mod: the go.sum branch (go / toolchain older than 1.17) is modelled at the level of the fields of the go.sum lines (GoMod.extractWithSum); WHETHER a version is older than 1.17 is go/version.Compare, evaluated by the harness and passed to the model',
                        'dpkg: usr/lib/opkg/status is read like var/lib/dpkg/status (same cases, another path); var/lib/dpkg/status.d/<name> has its own model (Dpkg.parseD: stanzas without Status count, a reader error yields no packages) tied by the stream only, format dpkgd',
                        'a Gemfile.lock line of 64 KiB or more silently ends the file (scanner.Err() is never checked after the loop): outside the WF of theorem C03_gemfile; judged by the long-line layouts (known findings C03/line-over-64KiB-*)',
-                       'go.mod: the MODEL (GoMod.step / extract) mirrors the extractor, which matches a wildcard replace against the CURRENT name of an entry; the SPECIFICATION the oracle uses is the go command\'s rule (GoMod.goFinal / expectedGo, no theorem ties the two: on every generated document outside the class of known finding C03/gomod-wildcard-replace-follows-replaced-name model = implementation = specification is observed by the stream); files with conflicting directives (same left side, different right sides: an error of the go command, GoMod.consistent) are not judged']
+                       'go.mod: model and specification both follow the go command\'s rule since fix 22707b48 (wildcard directives matched against the module as required, version-specific ones win; GoMod.goFinal / expectedGo is the independent statement, GoMod.ordered / step the extractor\'s loop; no theorem ties the two, the stream observes model = implementation = specification); files with conflicting directives (same left side, different right sides: an error of the go command, GoMod.consistent) are not judged']
     ctx.rule = ('case = one generated file of one of the twelve formats: abstract package set (0..40 records, ecosystem-legal alphabets) x layout (record order, LF/CRLF/mixed, final newline, '
                 'blank lines, comments, unrelated fields, white space, key order / indentation for JSON and TOML), serialised by the harness\'s own encoders and read by the real Extract; '
                 'format reqtree: a file system of 1..9 requirements files that include each other (chains of depth 1..4 through sub-directories and ../, several routes, cycles, self-includes, missing targets, '
